@@ -262,7 +262,11 @@ def gen_case(rng, k):
     elif mode == "scalar":
         pool = [{"type": "string"}, {"enum": ["red", "green", "blue"]}, {"enum": ["green", "blue", 1]}, {"type": "integer"},
                 {"type": "integer", "minimum": 0, "maximum": 10}, {"type": "number"}, {"type": "string", "enum": ["red", "off"]},
-                {"type": "boolean"}, {"type": "string", "minLength": 2}, {"not": {"enum": ["green"]}}, {}]
+                {"type": "boolean"}, {"type": "string", "minLength": 2}, {"not": {"enum": ["green"]}}, {},
+                {"const": "blue"}, {"const": "red"}, {"const": 1}, {"type": "string", "const": "green"},
+                {"type": "integer", "minimum": 0, "maximum": 0, "exclusiveMinimum": -1}, {"type": "integer", "minimum": 1},
+                {"type": "integer", "exclusiveMinimum": 0, "exclusiveMaximum": 2}, {"type": "integer", "format": "int32", "maximum": 5},
+                {"type": "number", "minimum": 0.5, "maximum": 2.5}, {"type": "integer", "enum": [0, 1, 2]}]
         if "Enum" in defs: pool.append(ref("Enum"))
         xs = [copy.deepcopy(rng.choice(pool)) for _ in range(n)]
     else:
